@@ -71,8 +71,8 @@ def build_tree(root, tree):
     for i, ent in enumerate(tree):
         try:
             _build_one(root, ent, i, later)
-        except (FileExistsError, NotADirectoryError, IsADirectoryError):
-            pass          # a generated tree defined the same path twice in conflicting ways: the first definition wins
+        except (FileExistsError, NotADirectoryError, IsADirectoryError, FileNotFoundError):
+            pass          # a generated tree defined the same path twice in conflicting ways (also: below a dangling link): the first definition wins
     for rp, mode, i in reversed(later):
         os.chmod(rp, mode)
         os.utime(rp, (MT0 + i, MT0 + i))
